@@ -1059,6 +1059,46 @@ class World(object):
             x = self.obj(a).deepcopy()
         self.finish_new(st, x, origin='deepcopy')
 
+    def op_big_write(self, st):
+        """One write of a LARGE array (tens of thousands of elements, out-of-range ones far apart) into a
+        throw-away object with one recording callback: however the library walks through the data, the
+        write is one write - each condition is notified once.  The object is not kept (snapshots of
+        such arrays after every step would cost more than they tell)."""
+        op = st.op
+        st.kind = 'construct'
+        st.pure = True
+        if self.template is not None or self.cfg_template is not None:
+            raise Skip('a global template would shape the throw-away object')
+        yield
+        n = int(op.get('n', 70000))
+        s_, nw, nf = op['fmt']
+        lo, hi = Q.bounds(bool(s_), nw)
+        cb = self.make_cbs(1)[0]
+        x = Fxp(np.zeros(n), bool(s_), nw, nf, overflow=op.get('overflow', 'saturate'), callbacks=[cb])
+        cb.owner = x
+        arr = np.zeros(n)
+        expect = {'on_status_overflow': 0, 'on_status_underflow': 0, 'on_status_inaccuracy': 0, 'on_value_change': 1}
+        for pos in op.get('over', []):
+            arr[pos % n] = float(Q.unscale(hi + 3, nf))
+            expect['on_status_overflow'] = 1
+            expect['on_status_inaccuracy'] = 1
+        for pos in op.get('under', []):
+            arr[pos % n] = float(Q.unscale(lo - 3, nf))
+            expect['on_status_underflow'] = 1
+            expect['on_status_inaccuracy'] = 1
+        mark = len(st.cb_events)
+        if op.get('via') == 'setitem':
+            x[:] = arr
+        else:
+            x.set_val(arr)
+        got = {}
+        for (c, site, k) in st.cb_events[mark:]:
+            if c == cb.cid:
+                got[site] = got.get(site, 0) + 1
+        st.extra['big_write'] = {'n': n, 'expected': expect, 'observed': {k_: got.get(k_, 0) for k_ in expect},
+                                 'flags': {f: bool(x.status.get(f)) for f in ('overflow', 'underflow', 'inaccuracy')}}
+        self.bump('big_array_write')
+
     def op_acc_copy(self, st):
         """An ACCUMULATOR (an object that names itself as its own result register: x.config.op_out = x)
         is copied by a route built on deep copy.  The copy's register must be the copy itself (or a
